@@ -26,6 +26,7 @@ UNITS = {
     "trusted_additions": {"template": "contracts/trusted_additions.vrs", "rlimit": 60},
     "tree_hash_bytes": {"template": "contracts/tree_hash_bytes.vrs", "rlimit": 30},
     "bundle_additions": {"template": "contracts/bundle_additions.vrs", "rlimit": 60},
+    "streamable_complete": {"template": "contracts/streamable_complete.vrs", "rlimit": 60},
     "builders_interned": {"template": "contracts/builders_interned.vrs", "rlimit": 60},
     "mempool_visitor": {"template": "contracts/mempool_visitor.vrs", "rlimit": 60},
     "generator_len": {"template": "contracts/generator_len.vrs", "rlimit": 30},
